@@ -109,6 +109,14 @@ mod imp {
             }
             for b in bufs {
                 let len = b.bytes.len();
+                if let Place::Over(j) = b.place {
+                    // shares the memory of buffer j, which keeps its own
+                    // bytes until a Refill
+                    let (p, plen, _) = self.placed[j];
+                    assert!(len <= plen, "Place::Over target too short");
+                    self.placed.push((p, len, usize::MAX));
+                    continue;
+                }
                 if len <= DATA_PAGES * PAGE - 128 && next_region < POOL {
                     let r = next_region;
                     next_region += 1;
@@ -118,6 +126,7 @@ mod imp {
                             Place::Left => data,
                             Place::Right => data.add(DATA_PAGES * PAGE - len),
                             Place::Mid(k) => data.add(64 + (k as usize % 64)),
+                            Place::Over(_) => unreachable!(),
                         };
                         // (re)initialise what surrounds the buffer: a fixed halo,
                         // so that a moderate over-read sees episode-determined
@@ -163,6 +172,7 @@ mod imp {
                             Place::Left => data,
                             Place::Right => data.add(pages * PAGE - len),
                             Place::Mid(k) => data.add(64 + (k as usize % 64)),
+                            Place::Over(_) => unreachable!(),
                         };
                         core::ptr::copy_nonoverlapping(b.bytes.as_ptr(), p, len);
                         self.big.push(Big { base, len: total });
@@ -177,6 +187,13 @@ mod imp {
         pub fn slice(&self, i: usize) -> &'static [u8] {
             let (p, len, _) = self.placed[i];
             unsafe { core::slice::from_raw_parts(p, len) }
+        }
+
+        /// The caller overwrites the memory of buffer `i` with `bytes`.
+        pub fn refill(&mut self, i: usize, bytes: &[u8]) {
+            let (p, len, _) = self.placed[i];
+            assert!(bytes.len() == len);
+            unsafe { core::ptr::copy_nonoverlapping(bytes.as_ptr(), p as *mut u8, len) }
         }
 
         /// The caller frees buffer `i`: its pages become inaccessible.
@@ -244,6 +261,11 @@ mod imp {
                 let raw = Box::into_raw(bx) as *mut u8;
                 self.ptrs.push((raw, len, true));
             }
+        }
+        pub fn refill(&mut self, i: usize, bytes: &[u8]) {
+            let (p, len, _) = self.ptrs[i];
+            assert!(bytes.len() == len);
+            unsafe { core::ptr::copy_nonoverlapping(bytes.as_ptr(), p, len) }
         }
         pub fn slice(&self, i: usize) -> &'static [u8] {
             let (p, len, _) = self.ptrs[i];
